@@ -275,7 +275,7 @@ def run_check(prop_id, obls, tier, seed, args, t0):
         for c in (a["nt_samples"][:2] + a["samples"][:1])[:2]:
             s = canon(c)
             samples.append({"obligation": oname, "case": c if len(s) < 4000 else s[:4000] + "...(truncated)"})
-    labels = {o: dict(a["labels"].most_common(40)) for o, a in per_obl.items()}
+    labels = {o: dict(a["labels"].most_common(260)) for o, a in per_obl.items()}
     evidence = {
         "property_id": prop_id,
         "tier": tier,
